@@ -871,6 +871,10 @@ func (r *runner) toComposableRunnable() *composableRunnable {
 		outputType:    r.outputType,
 		genericHelper: r.genericHelper,
 		optionType:    nil, // if option type is nil, graph will transmit all options.
+		checkOptions: func(opts []Option) error {
+			_, err := extractOption(r.chanSubscribeTo, opts...)
+			return err
+		},
 	}
 
 	return cr
